@@ -8,7 +8,7 @@ LEAN = os.path.join(ROOT, "lean")
 HARNESS = os.path.join(ROOT, "harness")
 WORK = os.path.join(ROOT, "work")
 REPLAYS = os.path.join(ROOT, "replays")
-EVID = os.path.join(ROOT, "evidence")
+EVID = os.environ.get("VERIF_EVIDENCE_DIR") or os.path.join(ROOT, "evidence")
 CORPUS = os.path.join(ROOT, "corpus")
 REPO = "/repo"
 SPECGEN = os.path.join(LEAN, ".lake", "build", "bin", "specgen")
